@@ -25,10 +25,10 @@ theorem fileIdx_eq : fileIdx = Splice.Out.srcIdx := by
 theorem deletedB_eq (pls : List (Hunk × Nat)) (i : Nat) : deletedB pls i = Splice.delB pls i := rfl
 
 /-- the admissibility predicate includes "the old side fits in the file, but for the lines at its end which fuzz ignores" (D99) and
-    "the hunk starts inside the file" -/
+    "the hunk starts inside the file or at its very end" (D109: the end only if fuzz ignores the whole old side) -/
 theorem admissibleB_fit {file : List Line} {h : Hunk} {iw : Bool} {maxFuzz : Int} {p f : Nat}
     (hadm : admissibleB file h iw maxFuzz p f = true) :
-    p + (oldOf h.lines).length ≤ file.length + (fuzzPair h.lines f).2 ∧ p < file.length := by
+    p + (oldOf h.lines).length ≤ file.length + (fuzzPair h.lines f).2 ∧ p ≤ file.length := by
   obtain ⟨_, _, _, h1, h2, _⟩ := (admissibleB_iff file h iw maxFuzz p f).1 hadm
   exact ⟨h1, h2⟩
 
